@@ -304,8 +304,11 @@ def extra_suffixes(prop):
 # statement files of another property whose theorems this property's decision
 # rules rest on as well (C03P: the time and user-agent rules translated from
 # the Go AST - rotation and backstop are C04's and C05's, staleness is C01's;
-# C06P: the remote-address block and the look-up guard len(id) == 24, C02's)
-SHARED_STATEMENTS = {"C01": ["C03P", "C06P"], "C02": ["C06P"], "C04": ["C03P"], "C05": ["C03P"], "C06": ["C03P"]}
+# C06P: the remote-address block and the look-up guard len(id) == 24, C02's).
+# Since the text pin sess_shape_pinned lists these conditions as placeholders
+# (DESIGN 9.11), their meaning is an obligation of every check that runs the pin.
+SHARED_STATEMENTS = {p: [m for m in ("C03P", "C06P") if not m.startswith(p)]
+                     for p in ("C01", "C02", "C03", "C04", "C05", "C06", "C07", "C08", "C09", "C10", "C11", "C12", "C18")}
 
 
 def run_property(chk, prop, note=None):
